@@ -331,6 +331,7 @@ func VH_Sync(a []int) {
 		// objects handed out by the informer caches must not be modified
 		sym.Freeze(sw.w.pods)
 		sym.Freeze(sw.w.sets)
+		sym.Freeze(sw.w.pvcs)
 	}
 	var err error
 	panicked := ""
